@@ -65,12 +65,12 @@ CLAIMED = {
                      "one task return and one check. Tie: histories of the real scheduler under thousands of controlled schedules (random, PCT, DFS, spurious wake-ups) must be linearisations accepted "
                      "by the extracted transition system; thread affinity and worker liveness at quiescence are read off the runtime."),
     "C13": dict(engine="coq-seq", design="DESIGN.md 6 C13",
-                technique="machine-checked proof in Coq (invariants of the connectable automaton over all call histories; simulation between the automaton and the reference machine of the definition for ref_count and replay) + three-way correspondence impl = Seq = ConnK and a reference-machine oracle on every implementation observation",
+                technique="machine-checked proof in Coq (invariants of the connectable automaton over all call histories; simulation between the automaton and the reference machine of the definition for publish, ref_count and replay) + three-way correspondence impl = Seq = ConnK and a reference-machine oracle on every implementation observation",
                 text="Theorems C13_ref_count_one_source / C13_replay_one_source / C13_publish_sources_are_connections / C13_publish_nothing_before_connect: for every call history "
                      "(unbounded subscribers and calls) the automaton of publish / ref_count / replay over a hot source holds at most one source subscription (ref_count: exactly one while it has "
-                     "subscribers; publish: one per live connection, none before connect). C13_ref_count_refines_reference / C13_replay_refines_reference: for every history in which each handle subscribes at most once, every subscriber's log, the registered "
+                     "subscribers; publish: one per live connection, none before connect). C13_ref_count_refines_reference / C13_replay_refines_reference / C13_publish_refines_reference (publish: histories without a connect() while a connection is live): for every history in which each handle subscribes at most once, every subscriber's log, the registered "
                      "subscribers, replay's history and stored terminal and the connected flag of the automaton equal those of the reference machine of the definition (a subscriber receives what the source emits while it is subscribed; replay: the whole history, "
-                     "then the live stream or the stored terminal). Partial: publish's subscriber view, cold sources and subscribers behind further operators are decided by the reference-machine oracle / the correspondence on the implementation "
+                     "then the live stream or the stored terminal). Partial: cold sources and subscribers behind further operators are decided by the reference-machine oracle / the correspondence on the implementation "
                      "(all histories up to length 5-6 exhaustively plus random ones, hot and synchronous cold sources, late early-leavers, re-subscription inside terminal callbacks). Tie: the implementation's source-observer count "
                      "after every action and every subscriber log must equal the automaton's."),
     "C14": dict(engine="coq-seq", design="DESIGN.md 6 C14",
